@@ -135,6 +135,13 @@ impl SubscriptionActor {
                 _ = deleted => (),
                 _ = poll => (),
             }
+
+            // A sender that had already reserved its slot in the mailbox may still put its
+            // request in after the receiver is gone, where nobody would ever answer it.
+            // Close the mailbox and take out whatever is still on its way in, so that
+            // those senders see their responder dropped instead of waiting forever.
+            receiver.close();
+            while receiver.recv().await.is_some() {}
         });
 
         sender
